@@ -35,6 +35,9 @@ var domains = []domainClass{
 	{"sub.example.org", ""},              // a sub-domain is not the domain
 	{"example.org.evil.test", ""},        // suffix trick
 	{"münchen.example", "xn--mnchen-3ya.example"},
+	// two DIFFERENT domains under IDNA2008 that an over-eager case folding (sharp s -> ss) merges
+	{"fass.example", ""},
+	{"faß.example", "xn--fa-hia.example"},
 }
 
 func domainByCanon(c string) domainClass {
